@@ -33,7 +33,7 @@ def register(reg):
         locals=dict(tags=OrdDictT(STR, STR), cigar=STR, is_primary=BOOL),
         defaults={"cigar_length": lambda eng: __import__("pyvc.engine", fromlist=["NoneV"]).NoneV},
         requires=["len(fields_of(rstrip_crlf(line))) >= 12", "lastcg == -1 and nonprim == -1"],
-        loops={1: Loop(index="it1", fingerprint="for k in fields[12:]", invariant={
+        loops={1: Loop(index="it1", fingerprint="for k in fields[", invariant={
             # keys of the tag dict = the kept fields' TAG:TYPE: in order of first occurrence
             "keys-are-kept-fields": "forall(lambda i: implies(0 <= i < len(keys(tags)), keys(tags)[i] in tags and 0 <= firstpos[keys(tags)[i]] < it1 and "
                                     "kept(firstpos[keys(tags)[i]]) and key(firstpos[keys(tags)[i]]) == keys(tags)[i]))",
